@@ -1217,9 +1217,44 @@ func divisorNonZero(b *ssa.BinOp) (bool, string) {
 		}
 		break
 	}
-	same := c06samePath(d) // also across the boundary of a helper that inherits its call site's branch facts
-	// len(x): also accept facts on len of the same x
-	for _, f := range c06expandFacts(factsAt(b.Block())) {
+	samePath := c06samePath(d) // also across the boundary of a helper that inherits its call site's branch facts
+	sameCanon := c06sameCanon(d, nil)
+	// (canonical paths: the guard may read the divisor through a one-line accessor - `if c.capacity() == 0` for a
+	// divisor len(r.l) in a method of the embedded ring - or the other way round)
+	same := func(o ssa.Value) bool { return samePath(o) || sameCanon(o) }
+	if c06nonZeroFact(c06expandFacts(factsAt(b.Block())), same) {
+		return true, ""
+	}
+	// a helper with several call sites (factsAt inherits the facts of a single one only): the guard stands at every one
+	if fn := b.Parent(); fn != nil && onlyStaticallyCalled(fn) {
+		if sites := gSites[fn]; len(sites) > 1 && len(sites) <= maxHelperSites {
+			all := true
+			for _, s := range sites {
+				if _, isGo := s.(*ssa.Go); isGo || s.Block() == nil || s.Parent() == fn || len(s.Common().Args) != len(fn.Params) {
+					all = false
+					break
+				}
+				bind := map[*ssa.Parameter]c06bound{}
+				for k, p := range fn.Params {
+					bind[p] = c06bound{s.Common().Args[k], false}
+				}
+				if !c06nonZeroFact(c06expandFacts(factsAt(s.Block())), c06sameCanon(d, bind)) {
+					all = false
+					break
+				}
+			}
+			if all {
+				return true, ""
+			}
+		}
+	}
+	return false, "no dominating test shows " + shortPath(d) + " != 0"
+}
+
+// c06nonZeroFact: one of the facts states that the value accepted by same is not zero (x > 0, x != 0, x >= 1, their
+// negated counterparts and mirrored spellings).
+func c06nonZeroFact(facts []Fact, same func(ssa.Value) bool) bool {
+	for _, f := range facts {
 		cmp, ok := f.Cond.(*ssa.BinOp)
 		if !ok {
 			continue
@@ -1238,36 +1273,41 @@ func divisorNonZero(b *ssa.BinOp) (bool, string) {
 		zeroY := func() bool { n, ok := constInt(y); return ok && n == 0 }
 		zeroX := func() bool { n, ok := constInt(x); return ok && n == 0 }
 		oneY := func() bool { n, ok := constInt(y); return ok && n == 1 }
+		oneX := func() bool { n, ok := constInt(x); return ok && n == 1 }
 		switch {
-		case same(x) && zeroY():
+		case zeroY() && same(x):
 			switch cmp.Op {
 			case token.GTR, token.NEQ:
 				if f.Truth {
-					return true, ""
+					return true
 				}
 			case token.EQL, token.LEQ:
 				if !f.Truth {
-					return true, ""
+					return true
 				}
 			}
-		case same(x) && oneY():
+		case oneY() && same(x):
 			if (cmp.Op == token.GEQ && f.Truth) || (cmp.Op == token.LSS && !f.Truth) {
-				return true, ""
+				return true
 			}
-		case same(y) && zeroX():
+		case zeroX() && same(y):
 			switch cmp.Op {
 			case token.LSS, token.NEQ:
 				if f.Truth {
-					return true, ""
+					return true
 				}
 			case token.EQL, token.GEQ:
 				if !f.Truth {
-					return true, ""
+					return true
 				}
+			}
+		case oneX() && same(y):
+			if (cmp.Op == token.LEQ && f.Truth) || (cmp.Op == token.GTR && !f.Truth) {
+				return true
 			}
 		}
 	}
-	return false, "no dominating test shows " + shortPath(d) + " != 0"
+	return false
 }
 
 // mutatingExternal: library functions that write through their first argument.
